@@ -100,7 +100,7 @@ func (l *_LexerStateMachine) PushRune(r rune) int {
 		switch mode[i] {
 		case 1: // PushMode
 			modeIndex := int(mode[i+1])
-			l.modeStack.Push(mode)
+			l.modeStack.Push(l.mode)
 			l.mode = _lexerModes[modeIndex]
 		case 2: // PopMode
 			if len(l.modeStack) == 0 {
